@@ -207,12 +207,8 @@ func (a *Authority) DecryptPKIEnvelope(ctx context.Context, msg *PKIMessage) err
 
 	switch msg.MessageType {
 	case smallscep.CertRep:
-		certs, err := smallscep.CACerts(msg.pkiEnvelope)
-		if err != nil {
-			return fmt.Errorf("error extracting CA certs from pkcs7 degenerate data: %w", err)
-		}
-		msg.CertRepMessage.Certificate = certs[0]
-		return nil
+		// a CertRep is a reply of the CA; it's never a valid request
+		return errors.New("unexpected CertRep message")
 	case smallscep.PKCSReq, smallscep.UpdateReq, smallscep.RenewalReq:
 		csr, err := x509.ParseCertificateRequest(msg.pkiEnvelope)
 		if err != nil {
